@@ -35,6 +35,18 @@ pub fn run(prop: &str, req: &str, rep: &str, outfile: &str) {
         "C14" => oracle_c14(&reqs, &reps, &mut fails, &mut checked, &mut nontrivial),
         "C07" => oracle_c07(&reqs, &reps, &mut fails, &mut checked, &mut nontrivial),
         "C11" => oracle_c11(&reqs, &reps, &mut fails, &mut checked, &mut nontrivial),
+        "C09" => {
+            for (i, (q, r)) in reqs.iter().zip(reps.iter()).enumerate() {
+                checked += 1;
+                if r.contains("panic") || r.contains("PANIC") {
+                    // the string-capacity panic is a recorded finding of C20; anything else is new
+                    fail(&mut fails, i, q, r, "a call on a package opened from this input panicked".into());
+                }
+                if q.starts_with("load ") || q.starts_with("@open_bytes") {
+                    nontrivial.insert(format!("{}", q.len() as u64 * 31 + i as u64 % 7));
+                }
+            }
+        }
         "C15" => {
             for (i, (q, r)) in reqs.iter().zip(reps.iter()).enumerate() {
                 if !q.starts_with("@fault_sweep") {
